@@ -917,6 +917,34 @@ impl St {
                 Ok(pep508_rs::MarkerValue::Extra) => S::a("extra"),
                 _ => S::a("err"),
             },
+            "vurlrel" => {
+                // (vurlrel how_a text_a how_b text_b): VerbatimUrls built through the constructors (parse_url: no verbatim text;
+                // given: parse_url + with_given(text); from_url: From<Url>), compared by ==, cmp both ways, hash, and by their parsed URLs
+                let mk = |how: &str, t: &str| -> Option<VerbatimUrl> {
+                    match how {
+                        "parse" => VerbatimUrl::parse_url(t).ok(),
+                        "given" => VerbatimUrl::parse_url(t).ok().map(|u| u.with_given(t.to_string())),
+                        "givenx" => VerbatimUrl::parse_url(t).ok().map(|u| u.with_given(format!("{}  ", t))),
+                        _ => url::Url::parse(t).ok().map(VerbatimUrl::from_url),
+                    }
+                };
+                match (mk(l[1].atom(), &l[2].string()), mk(l[3].atom(), &l[4].string())) {
+                    (Some(a), Some(b)) => {
+                        let hu = |t: &VerbatimUrl| {
+                            let mut s = std::collections::hash_map::DefaultHasher::new();
+                            t.hash(&mut s);
+                            s.finish()
+                        };
+                        let c = |o: std::cmp::Ordering| match o {
+                            std::cmp::Ordering::Less => "Lt",
+                            std::cmp::Ordering::Equal => "Eq",
+                            std::cmp::Ordering::Greater => "Gt",
+                        };
+                        S::tag("ok", vec![S::bool(a == b), S::a(c(a.cmp(&b))), S::a(c(b.cmp(&a))), S::bool(hu(&a) == hu(&b)), S::bool(a.raw() == b.raw())])
+                    }
+                    _ => S::a("none"),
+                }
+            }
             "reqrel" => {
                 let origin = |s: Option<&S>| -> Option<pep508_rs::RequirementOrigin> {
                     match s {
